@@ -397,7 +397,7 @@ def parse_bnf(text):
                 syms = [s for s in alt.split() if s != "EMPTY"]
                 prods.append((l.strip(), syms))
         else:
-            terms[l.strip()] = r.strip().strip("'")
+            terms[l.strip()] = r.strip().strip("'").replace("\\n", "\n")
     return Gram(prods, terms)
 
 
